@@ -1,5 +1,5 @@
 """C08 — concurrent writers never corrupt the encrypted stream."""
-import itertools, json
+import itertools, json, re
 from .. import core
 
 ID = "C08"
@@ -7,7 +7,8 @@ FAMILY = "connw"
 RULE = ("N = 2..4 goroutines call Connection.Write concurrently on one encrypted connection over a scripted net.Conn that "
         "holds every socket write until the runner releases it; EVERY release-order preference (all index sequences of "
         "length N over the pending set) for N <= 3, sampled for N = 4; payloads of 1..3 frames. The captured stream is "
-        "decrypted by the x/crypto reference framer. non-trivial = at least two writers")
+        "decrypted by the x/crypto reference framer. A keep-alive writer (hap.KeepAlive, 1 ms period) runs alongside 1..2 writers "
+        "in further cases (its messages may stand between payloads, never inside one). non-trivial = at least two writers")
 EXTRA_FILES = ("Proofs/ConnWriteProofs.v",)
 ASSUMPTIONS = ["sync.Mutex provides mutual exclusion and happens-before (Go memory model); the model's micro-steps are seal-one-chunk / send-all under the lock",
                "the order in which goroutines acquire the mutex is nondeterministic: observations are compared modulo the order of the payloads",
@@ -35,6 +36,14 @@ def gen(rng, tier):
             pls = [("%02x" % (i + 1)) + rb(rng, s - 1) for i, s in enumerate(sz)]
             cases.append({"id": "cw%d" % len(cases), "kind": "N=%d" % n,
                           "line": "cw %s %s %s" % (shared, ",".join(map(str, pref)), " ".join(pls))})
+    # a keep-alive writer (hap.KeepAlive with a 1 ms period) alongside 1..2 writers: the release preference also picks
+    # among the keep-alive's held socket writes
+    for sz in [[5], [1500], [2048, 7], [3000, 1030]]:
+        n = len(sz) + 1
+        for pref in (list(itertools.product(range(n), repeat=n)) if tier != "quick" else [tuple(rng.randrange(n) for _ in range(n)) for _ in range(4)] + [(1,) * n, (n - 1,) * n]):
+            pls = [("%02x" % (i + 1)) + rb(rng, s - 1) for i, s in enumerate(sz)]
+            cases.append({"id": "cw%d" % len(cases), "kind": "KA+%d" % len(sz),
+                          "line": "cw %s %s %s KA" % (shared, ",".join(map(str, pref)), " ".join(pls))})
     return cases
 
 
@@ -49,7 +58,8 @@ def outcome_class(c, obs):
 def oracle(c, obs):
     if obs.startswith("panic") or obs.startswith("DRIVER-DIED") or obs == "NO-OUTPUT" or obs == "stuck":
         return "harness failure / stuck writers: " + obs[:80]
-    want = sorted(c["line"].split(" ")[3:])
+    want = sorted(x for x in c["line"].split(" ")[3:] if x != "KA")
+    obs = re.sub(r" ka=\d+$", "", obs)
     if not obs.startswith("ok "):
         return "the peer cannot decrypt the stream in arrival order / a payload is not intact and contiguous: " + obs[:80]
     if sorted(obs[3:].split(",")) != want:
@@ -119,3 +129,8 @@ def extra(res, cases):
             res.violations.append((c["kind"], {"property": ID, "family": FAMILY, "seed": res.seed, "case": c["line"], "implementation_observed": o[:300],
                                                "required": why, "failing_input_found": True, "replay": "python3 tools/check.py C08 --replay <this file>"}))
     res.obligations.append(("implementation-side runs: writes across a session switch, writers against the reader", bad == 0, "%d runs, %d failing" % (len(cases), bad)))
+
+
+def same(c, g, m):
+    # the number of keep-alive messages that made it into the stream is timing, not behaviour
+    return re.sub(r" ka=\d+$", "", g) == m
